@@ -9,6 +9,9 @@ for d in seeded/*/; do
   checks=$prop
   [ "$id" = "C12-m1" ] && checks="C13"
   [ "$id" = "C15-m2" ] && checks="C08"
+  [ "$id" = "C07-m8" ] && checks="C02"
+  [ "$id" = "C07-m9" ] && checks="C09"
+  [ "$id" = "C07-m10" ] && checks="C03"
   for c in $checks; do
     res=$(tools/try_mutant.sh /verif/${d}patch.diff quick $c 2>&1)
     if echo "$res" | grep -q "PATCH DOES NOT APPLY"; then echo -e "$id\t$c\tno\t-\t-" >> $out; continue; fi
